@@ -2,12 +2,12 @@
    if no member reports an error the span stays well formed, the cursor only moves forward, and every bit before the old cursor
    and at or after the new cursor is untouched (induction over the op list).  No premise on the cursor: that it stays below 2^64
    FOLLOWS from success (the saturating capacity tests of setUxx / setZeros / padAndMoveToAlignment); the only side condition is
-   the argument type (a size_t length is below 2^64, an alignment is a uint8_t). *)
+   the argument type (a size_t length or alignment is below 2^64, an alignment is at least 1). *)
 From Verif Require Import Bits CPrims CPrimsThm CppPrims CppPrimsThm CppPrimsMoreThm PrimsExt.
 Open Scope N_scope.
 
 Definition op_span (o : cpp_op) : N := match o with CStoreU _ len => len | CZeros len => len | CPad n => n end.
-Definition cpp_op_ok (o : cpp_op) : Prop := match o with CPad n => 1 <= n <= 255 | CZeros len => len < two64 | CStoreU _ _ => True end.
+Definition cpp_op_ok (o : cpp_op) : Prop := match o with CPad n => 1 <= n < two64 | CZeros len => len < two64 | CStoreU _ _ => True end.
 Fixpoint total_span (ops : list cpp_op) : N := match ops with [] => 0 | o :: t => op_span o + total_span t end.
 
 Definition cpp_frame (s s' : span) (budget : N) : Prop :=
@@ -35,19 +35,19 @@ Proof.
     unfold cpp_frame, span_ok. cbn [sp_data sp_size sp_off]. unfold blen in *. rewrite L.
     repeat split; auto; try lia. intros p Hp. rewrite B.
     destruct (N.leb_spec (sp_off s) p); destruct (N.ltb_spec p (sp_off s + len)); cbn [andb]; try reflexivity. lia.
-  - destruct (pad_and_move_spec s n Hs Hok Ho) as [Ha Hc]. set (pad := (n - sp_off s mod n) mod n) in *.
+  - destruct (pad_and_move_every_alignment s n Hs Hok Ho) as [Ha Hc]. set (pad := (n - sp_off s mod n) mod n) in *.
     assert (Hp : pad < n) by (subst pad; apply N.mod_lt; lia).
     destruct (N.lt_ge_cases (sp_bits s) pad) as [Hlt|Hge]; [rewrite (Ha Hlt) in H; discriminate|].
     pose proof (sp_bits_spec s Hs) as SB. assert (Hb : sp_off s + pad < two64) by lia.
     destruct (Hc Hge) as (r & E & M & L & B). rewrite E in H. injection H as <-.
     assert (Hrok : bytes_ok r).
     { unfold padAndMoveToAlignment in E. destruct (n =? 0); [discriminate|]. destruct (negb _).
-      - destruct (setZeros_exact s (cast_u 8 (n - sp_off s mod n)) Hs Hok) as [_ Hz].
-        { unfold cast_u. pose proof (N.mod_lt (n - sp_off s mod n) (2 ^ 8) ltac:(discriminate)). change (2 ^ 8) with 256 in *. unfold two64. lia. }
+      - destruct (setZeros_exact s (n - sp_off s mod n) Hs Hok) as [_ Hz].
+        { lia. }
         destruct (setZeros s _) as [[d|e]|] eqn:EZ; try discriminate. injection E as <-.
-        destruct (N.lt_ge_cases (sp_bits s) (cast_u 8 (n - sp_off s mod n))) as [X|X].
-        + destruct (setZeros_exact s (cast_u 8 (n - sp_off s mod n)) Hs Hok) as [Hy _].
-          { unfold cast_u. pose proof (N.mod_lt (n - sp_off s mod n) (2 ^ 8) ltac:(discriminate)). change (2 ^ 8) with 256 in *. unfold two64. lia. }
+        destruct (N.lt_ge_cases (sp_bits s) (n - sp_off s mod n)) as [X|X].
+        + destruct (setZeros_exact s (n - sp_off s mod n) Hs Hok) as [Hy _].
+          { lia. }
           rewrite (Hy X) in EZ. discriminate.
         + destruct (Hz X) as (r' & E' & _ & K' & _). injection E' as <-. exact K'.
       - injection E as <-. exact Hok. }
